@@ -297,6 +297,53 @@ def Y_clap(ctx, bin_):
     ctx.floor(rule, "typed argument pairs", n, 2)
 
 
+CLAP_CONSTRAINTS = ("requires", "requires_if", "requires_ifs", "conflicts_with", "conflicts_with_all", "exclusive", "required_unless_present",
+                    "required_unless_present_any", "required_unless_present_all", "required_if_eq", "required_if_eq_any", "required_if_eq_all",
+                    "overrides_with", "overrides_with_all", "last", "subcommand_required", "arg_required_else_help", "num_args", "value_delimiter",
+                    "value_terminator", "require_equals", "trailing_var_arg")
+# what today's tree declares (confirmed by reading bin/src/main.rs): the positional input is required; --lx/--an and -v/-q are the members of the two exclusive groups
+CLAP_TODAY = {"group": 4, "ArgGroup::new": 1}
+
+
+def W_clap(ctx, bin_):
+    rule = "C15.W-clap"
+    ctx.rule(rule, "census of clap argument constraints in the derived augment_args: the CLI must keep accepting every documented flag combination, so a constraint "
+                   "(requires / conflicts_with / exclusive / required(true) / group membership ...) beyond the frozen table of today's tree is reported as unreviewed")
+    bodies = [b for b in bin_.all_bodies if b.kind != "closure" and b.short.split("::")[-1] == "augment_args"]
+    if len(bodies) != 1:
+        ctx.lost(rule, "augment_args", "found %d" % len(bodies))
+        return
+    b = bodies[0]
+    d = flow.Defs(b)
+    got = {"group": 0, "ArgGroup::new": 0}
+    seen_builder = 0
+    for bb, t, ci in b.calls():
+        p = ir.callee_path(ci) or ""
+        if "clap_builder" not in p and "clap::" not in p:
+            continue
+        last = flow.last(p)
+        owner = p.split("::")[-2] if "::" in p else ""
+        if owner in ("Arg", "ArgGroup", "Command"):
+            seen_builder += 1
+        if owner == "Arg" and last == "required":
+            continue    # the derive emits required(<bool> && action.takes_values()) for every argument; not modelled
+        elif owner == "Arg" and last in ("group", "groups"):
+            got["group"] += 1
+        elif owner == "ArgGroup" and last == "new":
+            got["ArgGroup::new"] += 1
+        elif owner in ("Arg", "ArgGroup", "Command") and (last in CLAP_CONSTRAINTS or (owner == "ArgGroup" and last == "required")):
+            if owner == "ArgGroup" and last == "required":
+                e = d.expr_call(t, bb)
+                v = flow.const_val(e[3][1]) if len(e[3]) > 1 and e[3][1][0] == "const" else "?"
+                if v is False or v == 0:
+                    continue
+            ctx.ob(rule, "new-constraint:%s::%s" % (owner, last), False, where=b.where(t.get("loc")), expected="no argument constraint beyond today's table",
+                   found="%s::%s" % (owner, last), kind="unreviewed")
+    for k, n in sorted(got.items()):
+        ctx.ob(rule, "census:%s" % k, n <= CLAP_TODAY[k], where=b.where(), expected="at most %d (today's tree)" % CLAP_TODAY[k], found=n, kind="unreviewed")
+    ctx.floor(rule, "clap builder calls seen", seen_builder, 20)
+
+
 def check(ctx):
     from rules import C08, C10
     for cfg in configs(ctx.tier):
@@ -304,6 +351,7 @@ def check(ctx):
         bin_ = ctx.load(cfg)
         A_arms(ctx, bin_)
         Y_clap(ctx, bin_)
+        W_clap(ctx, bin_)
         C08.P_parse(ctx, bin_, floor=3, key_prefix="bin:")
         C10.P_cli(ctx, bin_)      # sorting after an ADF was built relabels the printed statements
         C08.F_input(ctx, bin_, "bin", 3)
